@@ -46,3 +46,32 @@ def rickyVal (n : Nat) (cards : List Card) : Nat :=
   else rickyPoints cards
 
 end CardVerif.Gin
+
+namespace CardVerif.Gin
+
+/-! ## lay-offs (C12) -/
+
+/-- `c` is the fourth card of one of the knocker's three-card sets -/
+def SetLayoff (K : List (List Card)) (c : Card) : Prop :=
+  ∃ m ∈ K, IsSet m ∧ m.length = 3 ∧ ∀ x ∈ m, x.rank = c.rank
+
+/-- `c` extends one of the knocker's runs at its low or high end, every card between the run's end and `c` being laid
+off too (`L`); values stay within 1..14, so a run that already ends in the ace is not extended past it -/
+def RunLayoff (K : List (List Card)) (L : List Card) (c : Card) : Prop :=
+  ∃ m ∈ K, ∃ suit lo len, 3 ≤ len ∧ len ≤ 13 ∧ 1 ≤ lo ∧ lo + len ≤ 15 ∧ m.Perm (runCards suit lo len) ∧
+    c.suit = suit ∧
+    ((∃ v, 1 ≤ v ∧ v < lo ∧ c.rank = rankOfValue v ∧ ∀ u, v < u → u < lo → (⟨rankOfValue u, suit⟩ : Card) ∈ L) ∨
+     (∃ v, lo + len ≤ v ∧ v ≤ 14 ∧ c.rank = rankOfValue v ∧
+        ∀ u, lo + len ≤ u → u < v → (⟨rankOfValue u, suit⟩ : Card) ∈ L))
+
+/-- a legal set of lay-offs on the knocker's melds `K` -/
+def LayoffOK (K : List (List Card)) (L : List Card) : Prop :=
+  L.Nodup ∧ ∀ c ∈ L, SetLayoff K c ∨ RunLayoff K L c
+
+/-- the knocker's melds: legal, pairwise disjoint, and disjoint from the defender's hand -/
+structure KnockOK (hand : List Card) (K : List (List Card)) : Prop where
+  legal : ∀ m ∈ K, LegalMeld m
+  disjoint : (K.flatten ++ hand).Nodup
+  valid : ∀ c ∈ K.flatten, c.Valid
+
+end CardVerif.Gin
